@@ -47,6 +47,20 @@ def check(run, repo, world):
         "outside it give ANALYSIS-ERROR"]
     folder = Folder(world)
     rx = cmdtable.registries(world, folder)
+    # syntactic rules first: a store into a registry on a decode path is
+    # reported by R-PURE even though the interpreter refuses to go on
+    _pure(run, repo, world)
+    _truthy(run, repo, world)
+    try:
+        _codec(run, repo, world, folder, rx)
+    except AnalysisError as e:
+        if not run.findings:
+            raise
+        run.note("decoder interpretation stopped (%s); the violations "
+                 "already found are reported" % e)
+
+
+def _codec(run, repo, world, folder, rx):
     cmd = world.cls(CMD)
     run.rule("R-CODEC", "decode then re-encode is the identity, lane by "
              "lane, for every leaf case")
@@ -134,8 +148,6 @@ def check(run, repo, world):
     run.analysed["other frame widths checked"] = nw
 
     _attrdef(run, repo, world, leaf_objs)
-    _pure(run, repo, world)
-    _truthy(run, repo, world)
 
 
 def _ls(l):
